@@ -42,7 +42,7 @@ def run(tier):
         # deep random programs on larger roots (TLC -simulate, seeded by VERIF_SEED): beyond the exhaustive bound
         c4 = constants("quick"); c4.update({"MaxD": 4, "MaxExt": 5, "MaxDepth": 8, "ParenLean": True})
         runs.append(("c01_deep_random", c4))
-        sims["c01_deep_random"] = {"simulate": 4000, "depth": 9}
+        sims["c01_deep_random"] = {"simulate": 30, "depth": 9, "workers": 8}   # num is per worker; every candidate successor of every visited state is a program
     for name, c in runs:
         res = views.generate(name, c, rep, **sims.get(name, {}))
         if res.violated:
